@@ -8,8 +8,18 @@ import vlib
 
 # document 2 has a name that needs percent-encoding in a URI (a blank and a non-ASCII letter): the same file must be
 # recognised whether it is named by a URI, found in the workspace folder or passed to the command line
-URI = {0: "untitled:Untitled-1", 1: "file:///vp/ws/a.st", 2: "file:///vp/ws/b%20%C3%A9.st", 3: "file:///vp/ws/c.st"}
+# ... and documents 1 and 2 have names that differ in letter case only: two documents, not one
+URI = {0: "untitled:Untitled-1", 1: "file:///vp/ws/u%20%C3%A9.st", 2: "file:///vp/ws/U%20%C3%A9.st", 3: "file:///vp/ws/c.st"}
+# Every document has a second, equivalent spelling of its URI (a letter written as a percent escape): a message
+# addresses a DOCUMENT, whichever way its URI is spelled (concretize() alternates the spellings along a history)
+URI_ALT = {0: URI[0], 1: "file:///vp/ws/%75%20%C3%A9.st", 2: "file:///vp/ws/%55%20%c3%a9.st", 3: "file:///vp/ws/%63.st"}
 URI_INV = {v: k for k, v in URI.items()}
+URI_INV.update({v: k for k, v in URI_ALT.items()})
+
+
+def uri_of(u, n):
+    """spelling of document u's URI in the n-th message of a history"""
+    return URI_ALT[u] if n % 2 == 0 else URI[u]
 
 
 def fname(u):
@@ -91,6 +101,36 @@ def m_cresp(rid):
     return {"jsonrpc": "2.0", "id": 1000 + rid, "result": None}
 
 
+# Well-formed JSON-RPC whose params do not fit the method (Lsp.tla BadParamsReq / BadParamsNotif; w selects the shape)
+_OMIT = object()
+BAD_SHAPES = [{}, None, _OMIT, {"textDocument": 5}, {"textDocument": {"uri": "this is not a URI"}}]
+
+
+def _with_params(msg, w):
+    p = BAD_SHAPES[w % len(BAD_SHAPES)]
+    if p is not _OMIT:
+        msg["params"] = p
+    return msg
+
+
+def m_badreq(rid, w):
+    return _with_params({"jsonrpc": "2.0", "id": rid, "method": "textDocument/semanticTokens/full"}, w)
+
+
+def m_badnotif(m, w):
+    meth = "textDocument/didOpen" if m == 0 else "textDocument/didChange"
+    msg = _with_params({"jsonrpc": "2.0", "method": meth}, w)
+    if w % len(BAD_SHAPES) == 4:
+        # a document identifier that looks right except for one member of the wrong type
+        msg["params"] = ({"textDocument": {"uri": URI[1], "languageId": "61131-3-st", "version": "one", "text": "x"}} if m == 0 else
+                         {"textDocument": {"uri": URI[1]}, "contentChanges": [{"text": "x"}]})
+    return msg
+
+
+def m_close(uri):
+    return {"jsonrpc": "2.0", "method": "textDocument/didClose", "params": {"textDocument": {"uri": uri}}}
+
+
 def m_shutdown(rid):
     return {"jsonrpc": "2.0", "id": rid, "method": "shutdown", "params": None}
 
@@ -161,11 +201,11 @@ def concretize(hist, texts, always_close=True):
         if k == "ws":
             continue          # the content of the workspace folder at start-up: no message (see run_server(workspace=...))
         if k == "open":
-            msgs.append(m_open(URI[m["u"]], texts[m["t"]], m["v"]))
+            msgs.append(m_open(uri_of(m["u"], n), texts[m["t"]], m["v"]))
         elif k == "change":
-            msgs.append(m_change(URI[m["u"]], [texts[t] for t in m["ts"]], m["v"]))
+            msgs.append(m_change(uri_of(m["u"], n), [texts[t] for t in m["ts"]], m["v"]))
         elif k == "semtok":
-            msgs.append(m_semtok(m["id"], URI[m["u"]]))
+            msgs.append(m_semtok(m["id"], uri_of(m["u"], n + 1)))
         elif k == "unkreq":
             msgs.append(m_unkreq(m["id"], m["id"]))
         elif k == "unknotif":
@@ -173,6 +213,12 @@ def concretize(hist, texts, always_close=True):
             msgs.append(m_unknotif(m.get("w", n), reqs[-1] if reqs else None))
         elif k == "cresp":
             msgs.append(m_cresp(m["id"]))
+        elif k == "close":
+            msgs.append(m_close(uri_of(m["u"], n)))
+        elif k == "badreq":
+            msgs.append(m_badreq(m["id"], m["w"]))
+        elif k == "badnotif":
+            msgs.append(m_badnotif(m["m"], m["w"]))
         elif k == "shutdown":
             msgs.append(m_shutdown(m["id"]))
         elif k == "exit":
